@@ -1,6 +1,6 @@
 ------------------------------- MODULE Gen_Net -------------------------------
 (* Direction G for Net.tla: the scenario TLC chose (scripts per module) and the observation log. *)
 EXTENDS MC_Net, Json
-Obs == [scripts |-> scripts, log |-> log, err |-> err, endfail |-> EndFail, tend |-> now, ninv |-> ninv]
+Obs == [scripts |-> scripts, log |-> log, err |-> err, endfail |-> EndFail, tend |-> now, ninv |-> ninv, dead |-> dead]
 Emit == (phase = "done") => PrintT(<<"REPLAY", ToJson(Obs)>>)
 =============================================================================
